@@ -12,6 +12,7 @@ let pc_name (p : M.pc) : string =
   | M.DTry -> "DTry" | M.DCas -> "DCas" | M.DLock -> "DLock" | M.CLock -> "CLock"
   | M.MStore -> "MStore" | M.MDrain -> "MDrain" | M.MLoad -> "MLoad" | M.MCas -> "MCas"
   | M.MStoreReq -> "MStoreReq" | M.MUnlock -> "MUnlock" | M.RLoad0 -> "RLoad" | M.Done -> "Done" | M.RdLoad -> "RdLoad"
+  | M.GLock -> "GLock" | M.GLoad -> "GLoad" | M.ILock -> "ILock" | M.IDrain -> "IDrain"
 
 (* does the implementation's position agree with the model's program counter? *)
 let agrees (impl : string) (p : M.pc) (lock_held : bool) : bool =
@@ -25,7 +26,7 @@ let agrees (impl : string) (p : M.pc) (lock_held : bool) : bool =
   | "P1", M.MStore -> true
   | "P2", M.MLoad -> true
   | "P6", M.RLoad0 -> true
-  | "B", (M.DLock | M.CLock) -> lock_held
+  | "B", (M.DLock | M.CLock | M.GLock | M.ILock) -> lock_held
   | "D", M.Done -> true
   | _ -> false
 
@@ -39,7 +40,7 @@ let run (path : string) : unit =
       | _ when !dead -> ()
       | [ "N"; k ] ->
           count "threads_started";
-          let p = if k = "W" then M.WPush else if k = "R" then M.RdLoad else M.CLock in
+          let p = match k with "W" -> M.WPush | "R" -> M.RdLoad | "G" -> M.GLock | "I" -> M.ILock | _ -> M.CLock (* C, X *) in
           s := M.add_thread !s p;
           s := M.macro_step !s (nat_of_int (nthreads () - 1))
       | [ "S"; i ] ->
@@ -59,11 +60,23 @@ let run (path : string) : unit =
       | "O" :: ds :: wb :: free :: ths ->
           count "states_compared";
           (* a waiter that the implementation shows at the start of maintenance has been given the lock *)
+          (* first the waiters that have been through their critical section and released the lock again
+             (GetMaximum / InvalidateAll callers now at the start of rescheduleCleanUpIfIncomplete), then the
+             one that holds it now *)
+          List.iteri (fun i st ->
+              if st = "P6" && i < nthreads () then
+                match M.pc_at !s (nat_of_int i) with
+                | (M.GLock | M.ILock) when M.enabled !s (nat_of_int i) ->
+                    s := M.macro_step !s (nat_of_int i);
+                    (match M.pc_at !s (nat_of_int i) with M.RLoad0 -> count "waiters_woken" | _ -> ())
+                | _ -> ()) ths;
           List.iteri (fun i st ->
               if st = "P1" && i < nthreads () then
                 match M.pc_at !s (nat_of_int i) with
                 | (M.DLock | M.CLock) when M.enabled !s (nat_of_int i) ->
                     (match M.dstep !s (nat_of_int i) with Some s' -> s := s'; count "waiters_woken" | None -> ())
+                | M.GLock when M.enabled !s (nat_of_int i) ->
+                    s := M.macro_step !s (nat_of_int i); count "waiters_woken"
                 | _ -> ()) ths;
           let mds = int_of_nat (M.ds_of !s) and mwb = int_of_nat (M.wb_of !s) and mlock = M.lock_of !s in
           let ok = ref true in
